@@ -514,7 +514,7 @@ type replayFileT struct {
 }
 
 func writeReplay(vdir, id string, h HarnessSpec, v *Violation, params map[string]int64, n int) string {
-	dir := filepath.Join(vdir, "replay", id)
+	dir := filepath.Join(outDir(vdir), "replay", id)
 	os.MkdirAll(dir, 0o755)
 	rp := filepath.Join(dir, fmt.Sprintf("%s-%d.json", h.Func, n))
 	rf := replayFileT{Property: id, Harness: h.Func, Kind: v.Kind, Msg: v.Msg, Where: v.Where, Model: v.Model, Params: params, Pretty: v.Pretty, Inputs: v.Inputs, Trace: v.Trace}
@@ -811,9 +811,18 @@ func writeEvidence(vdir, id, tier string, seed int, results []*harnessResult, li
 	} else {
 		ev["assumptions"] = []string{}
 	}
-	os.MkdirAll(filepath.Join(vdir, "evidence"), 0o755)
+	os.MkdirAll(filepath.Join(outDir(vdir), "evidence"), 0o755)
 	b, _ := json.MarshalIndent(ev, "", " ")
-	os.WriteFile(filepath.Join(vdir, "evidence", id+".json"), b, 0o644)
+	os.WriteFile(filepath.Join(outDir(vdir), "evidence", id+".json"), b, 0o644)
+}
+
+// outDir: where evidence and replay files go; VERIF_OUT redirects them (development only: trial
+// runs against a scratch copy of the repository must not touch the evidence of /repo).
+func outDir(vdir string) string {
+	if d := os.Getenv("VERIF_OUT"); d != "" {
+		return d
+	}
+	return vdir
 }
 
 func cmdSelftest(args []string) int { return runSelftest() }
